@@ -81,6 +81,9 @@ func (p c03) Run(c *core.Ctx) {
 		i := c.Rng.Intn(n)
 		pl := c03Timings[c.Rng.Intn(len(c03Timings))]
 		pl.SameType = sameType
+		if !sameType && x == 0 && c.Index%5 == 3 {
+			pl.ZeroSize = true // zero-size substitutes of two different types (they may share one address)
+		}
 		plan[sc.Nodes[i].DisplayName()] = pl
 		wrappedIdx[i] = true
 	}
@@ -209,6 +212,10 @@ func verOf(o any) string {
 	}
 	if n, ok := o.(world.Node); ok && n.Core().Log == nil {
 		return fmt.Sprintf("a same-type substitute (%p)", o)
+	}
+	switch o.(type) {
+	case *world.ZWrap1, *world.ZWrap2:
+		return fmt.Sprintf("a zero-size substitute of type %T", o)
 	}
 	return fmt.Sprintf("the raw instance (%p)", o)
 }
